@@ -546,3 +546,229 @@ Proof.
   rewrite map_app. unfold place1. destruct (first_index x (sk_sources k)); simpl; [|apply IH].
   constructor; [|apply IH]. intros H. apply places_from_fst_ge in H. lia.
 Qed.
+
+(* ================================================================== the property theorems *)
+Lemma fp_inner_proj : forall B (g : source -> B), (forall pr x, g (add_place pr x) = g x) ->
+  forall ss i j seen S, map g (fp_inner i j ss seen S) = map g S.
+Proof.
+  intros B g Hg. induction ss as [|y r IH]; intros i j seen S; simpl; [reflexivity|].
+  destruct (memn y seen); rewrite IH; [reflexivity|]. apply map_upd_proj. intros x. apply Hg.
+Qed.
+
+Lemma fp_outer_proj : forall B (g : source -> B), (forall pr x, g (add_place pr x) = g x) ->
+  forall stacks i S, map g (fp_outer i stacks S) = map g S.
+Proof.
+  intros B g Hg. induction stacks as [|k r IH]; intros i S; simpl; [reflexivity|].
+  rewrite IH. now apply fp_inner_proj.
+Qed.
+
+Lemma label_samples_length : forall p ss unk, List.length (label_samples p unk ss) = List.length ss.
+Proof.
+  induction ss as [|a r IH]; intros unk; simpl; [reflexivity|].
+  destruct (label_frames p unk (sample_frames p a)). simpl. now rewrite IH.
+Qed.
+
+Lemma nth_error_map_Some : forall A B (g : A -> B) l i b, nth_error (map g l) i = Some b ->
+  exists a, nth_error l i = Some a /\ g a = b.
+Proof.
+  intros A B g l i b H. rewrite nth_error_map in H. destruct (nth_error l i) as [a|]; [|discriminate].
+  exists a. split; [reflexivity|]. simpl in H. congruence.
+Qed.
+
+Lemma pl_nth_error : forall S x src, nth_error S x = Some src -> pl S x = so_places src.
+Proof.
+  unfold pl. induction S as [|a S IH]; intros [|x] src H; simpl in *; try discriminate.
+  - now inversion H.
+  - now apply IH.
+Qed.
+
+Lemma pl_nil : forall S x, Forall (fun l => l = []) (map so_places S) -> pl S x = [].
+Proof.
+  unfold pl. intros S x H. destruct (nth_in_or_default x (map so_places S) []) as [Hin|Hd]; [|exact Hd].
+  rewrite Forall_forall in H. now apply H.
+Qed.
+
+Section Final.
+  Variable shorten clean : string -> string.
+  Variable o : opts.
+  Variable p : profile.
+
+  Let R := stacks_of shorten clean o p.
+
+  (* slot i of the source table holds the source created for frame key k, and it describes it *)
+  Definition frame_at (F : list source) (i : nat) (k : skey) : Prop :=
+    exists src, nth_error F i = Some src /\ so_key src = Some k /\ describes o k src.
+
+  Definition stack_keyed (F : list source) (k : stack) (sk : sample * list skey) : Prop :=
+    sk_value k = value_at (o_index o) (s_val (fst sk)) /\
+    exists idxs, sk_sources k = O :: idxs /\ Forall2 (fun i key => i <> O /\ frame_at F i key) idxs (snd sk).
+
+  (* everything the loop invariants give about the final stack set *)
+  Lemma final_facts :
+    let stacks := ss_stacks R in let F := ss_sources R in
+    Forall2 (stack_keyed F) stacks (combine (p_sample p) (expected_keys p))
+    /\ NoDup (map so_key F)
+    /\ Forall (wfd shorten clean o) (map (dsc) F)
+    /\ (forall x v, nth_error (map so_self F) x = Some v -> v = wrap_i64 (self_sum x stacks))
+    /\ (forall x src, nth_error F x = Some src -> so_places src = places_from O x stacks)
+    /\ Forall (fun k => Forall (fun i => (i < List.length F)%nat) (sk_sources k)) stacks
+    /\ exists r rest, F = r :: rest /\ so_key r = None /\ Forall (fun k => k <> None) (map so_key rest).
+  Proof.
+    unfold R, stacks_of. destruct (make_initial_stacks shorten clean o p) as [stacks s] eqn:E.
+    cbn [ss_stacks ss_sources]. unfold make_initial_stacks in E.
+    assert (HS0 : SelfInv [] (st_srcs init_st)).
+    { intros [|x] v H; simpl in H; [|destruct x; discriminate]. inversion H. reflexivity. }
+    pose proof (loop_spec shorten clean o p _ _ _ _ _ E (Inv_init shorten clean o) (Forall_nil _) HS0)
+      as [HI [_ [HR [HS [news [Hn Hf]]]]]].
+    simpl in Hn. subst news.
+    set (S := st_srcs s) in *. set (F := fill_places stacks S).
+    assert (Hkeys : map so_key F = map so_key S) by (apply fp_outer_proj; reflexivity).
+    assert (Hdsc : map dsc F = map dsc S) by (apply fp_outer_proj; reflexivity).
+    assert (Hself : map so_self F = map so_self S) by (apply fp_outer_proj; reflexivity).
+    assert (Hlen : List.length F = List.length S) by apply fp_outer_length.
+    destruct HI as [[rest [Hk [Hnn Hnd]]] Hdesc Hpl]. unfold keys in Hk.
+    split; [|split; [|split; [|split; [|split; [|split]]]]].
+    - eapply Forall2_mono; [|exact Hf]. intros k sk [H1 [idxs [H2 H3]]]. split; [exact H1|].
+      exists idxs. split; [exact H2|]. eapply Forall2_mono; [|exact H3]. simpl.
+      intros i key [Hi Hk']. split; [exact Hi|]. unfold key_at, keys in Hk'. rewrite <- Hkeys in Hk'.
+      apply nth_error_map_Some in Hk'. destruct Hk' as [src [Hs1 Hs2]]. exists src. split; [exact Hs1|].
+      split; [exact Hs2|].
+      assert (Hw : wfd shorten clean o (dsc src)).
+      { rewrite <- Hdsc in Hdesc. rewrite Forall_forall in Hdesc. apply Hdesc. apply in_map.
+        eapply nth_error_In; eauto. }
+      unfold wfd, dsc in Hw. rewrite Hs2 in Hw. unfold describes. tauto.
+    - rewrite Hkeys, Hk. constructor; [|exact Hnd]. intros Hin. rewrite Forall_forall in Hnn.
+      now apply (Hnn None Hin).
+    - now rewrite Hdsc.
+    - rewrite Hself. exact HS.
+    - intros x src Hx.
+      assert (Hlt : (x < List.length S)%nat) by (rewrite <- Hlen; apply nth_error_Some; congruence).
+      pose proof (fp_outer_spec stacks O S x Hlt) as Hp. fold (fill_places stacks S) in Hp. fold F in Hp.
+      rewrite (pl_nth_error _ _ _ Hx) in Hp. rewrite (pl_nil _ x Hpl) in Hp. exact Hp.
+    - eapply Forall_impl; [|exact HR]. simpl. intros k [H _]. now rewrite Hlen.
+    - rewrite <- Hkeys in Hk. clearbody F. destruct F as [|r rest']; [discriminate|].
+      simpl in Hk. injection Hk as Hr Hrest. exists r, rest'.
+      split; [reflexivity|]. split; [exact Hr|]. rewrite Hrest. exact Hnn.
+  Qed.
+End Final.
+
+(* ---------------------------------------------------------------- statements used by P_C17 *)
+Section Statements.
+  Variable shorten clean : string -> string.
+  Variable o : opts.
+  Variable p : profile.
+  Let R := stacks_of shorten clean o p.
+  Let stacks := ss_stacks R.
+  Let F := ss_sources R.
+
+  Lemma stack_frames_lemma : Forall2 (stack_keyed o F) stacks (combine (p_sample p) (expected_keys p)).
+  Proof. exact (proj1 (final_facts shorten clean o p)). Qed.
+
+  Lemma stack_matches_lemma :
+    Forall2 (fun k sk => stack_matches o F k (fst sk) (snd sk)) stacks (combine (p_sample p) (expected_keys p)).
+  Proof.
+    eapply Forall2_mono; [|exact stack_frames_lemma]. intros k sk [H1 [idxs [H2 H3]]]. split; [exact H1|].
+    exists idxs. split; [exact H2|]. eapply Forall2_mono; [|exact H3]. simpl.
+    intros i key [Hi [src [Hs [_ Hd]]]]. split; [exact Hi|]. exists src. auto.
+  Qed.
+
+  Lemma one_stack_lemma :
+    List.length stacks = List.length (p_sample p)
+    /\ map sk_value stacks = map (fun s => value_at (o_index o) (s_val s)) (p_sample p).
+  Proof.
+    pose proof stack_frames_lemma as H.
+    assert (Hl : List.length (combine (p_sample p) (expected_keys p)) = List.length (p_sample p)).
+    { rewrite combine_length. unfold expected_keys. rewrite label_samples_length. lia. }
+    split.
+    - erewrite Forall2_length_eq by exact H. exact Hl.
+    - assert (G : map sk_value stacks = map (fun sk : sample * list skey => value_at (o_index o) (s_val (fst sk)))
+                                       (combine (p_sample p) (expected_keys p))).
+      { clear Hl. induction H as [|k sk l l' [Hv _] _ IH]; simpl; [reflexivity|]. now rewrite Hv, IH. }
+      rewrite G. rewrite <- (map_map fst (fun s => value_at (o_index o) (s_val s))).
+      f_equal. clear. unfold expected_keys. generalize 1.
+      induction (p_sample p) as [|a r IH]; intros unk; simpl; [reflexivity|].
+      destruct (label_frames p unk (sample_frames p a)). simpl. now rewrite IH.
+  Qed.
+
+  Lemma values_sum_lemma :
+    sum_values stacks = fold_right (fun s acc => value_at (o_index o) (s_val s) + acc) 0 (p_sample p).
+  Proof.
+    destruct one_stack_lemma as [_ H]. unfold sum_values. revert H. generalize (p_sample p).
+    induction stacks as [|k r IH]; intros [|s ss] H; simpl in *; try discriminate; [reflexivity|].
+    inversion H. f_equal; auto.
+  Qed.
+
+  Lemma self_lemma : forall x src, nth_error F x = Some src -> so_self src = wrap_i64 (self_sum x stacks).
+  Proof.
+    intros x src H. destruct (final_facts shorten clean o p) as [_ [_ [_ [Hs _]]]]. apply Hs.
+    fold R. fold F. rewrite nth_error_map, H. reflexivity.
+  Qed.
+
+  Lemma self_exact_lemma : forall x src, nth_error F x = Some src ->
+    - two63 <= self_sum x stacks < two63 -> so_self src = self_sum x stacks.
+  Proof. intros x src H Hb. rewrite (self_lemma x src H). now apply wrap_i64_small. Qed.
+
+  Lemma places_lemma : forall x src i j, nth_error F x = Some src ->
+    (In (i, j) (so_places src) <->
+     exists k, nth_error stacks i = Some k /\ first_index x (sk_sources k) = Some j).
+  Proof.
+    intros x src i j H. destruct (final_facts shorten clean o p) as [_ [_ [_ [_ [Hp _]]]]].
+    rewrite (Hp x src H). fold R. fold stacks. rewrite places_from_In. rewrite Nat.sub_0_r.
+    split; [tauto|]. intros G. split; [lia|exact G].
+  Qed.
+
+  Lemma places_nodup_lemma : forall x src, nth_error F x = Some src -> NoDup (map fst (so_places src)).
+  Proof.
+    intros x src H. destruct (final_facts shorten clean o p) as [_ [_ [_ [_ [Hp _]]]]].
+    rewrite (Hp x src H). apply places_from_NoDup.
+  Qed.
+
+  (* a place points at the outermost occurrence of the source in that stack *)
+  Lemma places_outermost_lemma : forall x src i j, nth_error F x = Some src -> In (i, j) (so_places src) ->
+    exists k, nth_error stacks i = Some k /\ nth_error (sk_sources k) j = Some x
+              /\ forall j', (j' < j)%nat -> nth_error (sk_sources k) j' <> Some x.
+  Proof.
+    intros x src i j H Hin. apply (places_lemma x src i j H) in Hin. destruct Hin as [k [H1 H2]].
+    exists k. split; [exact H1|]. now apply first_index_Some.
+  Qed.
+
+  (* every stack containing the source is listed *)
+  Lemma places_complete_lemma : forall x src i k, nth_error F x = Some src -> nth_error stacks i = Some k ->
+    In x (sk_sources k) -> exists j, In (i, j) (so_places src).
+  Proof.
+    intros x src i k H Hk Hin. destruct (first_index_In x _ Hin) as [j Hj]. exists j.
+    apply (places_lemma x src i j H). eauto.
+  Qed.
+
+  Lemma range_lemma : Forall (fun k => Forall (fun i => (i < List.length F)%nat) (sk_sources k)) stacks.
+  Proof. exact (proj1 (proj2 (proj2 (proj2 (proj2 (proj2 (final_facts shorten clean o p))))))). Qed.
+
+  Lemma display_lemma : Forall (fun src => so_display src <> []) F.
+  Proof.
+    destruct (final_facts shorten clean o p) as [_ [_ [Hd _]]]. fold R in Hd. fold F in Hd.
+    rewrite Forall_forall in *. intros src Hin. specialize (Hd (dsc src) (in_map _ _ _ Hin)).
+    unfold wfd, dsc in Hd. destruct (so_key src) as [k|].
+    - destruct Hd as [_ [_ [_ Hd]]]. rewrite Hd. unfold display_of, short_name_list, file_name_suffixes.
+      destruct (k_fn k); [destruct (full_name o k)|]; discriminate.
+    - destruct Hd as [_ Hd]. rewrite Hd. discriminate.
+  Qed.
+
+  Lemma injective_lemma : forall i i' src src', nth_error F i = Some src -> nth_error F i' = Some src' ->
+    so_key src = so_key src' -> i = i'.
+  Proof.
+    intros i i' src src' H H' E. destruct (final_facts shorten clean o p) as [_ [Hn _]]. fold R in Hn. fold F in Hn.
+    eapply (proj1 (NoDup_nth_error (map so_key F))); eauto.
+    - rewrite map_length. apply nth_error_Some. congruence.
+    - rewrite !nth_error_map, H, H'. simpl. now rewrite E.
+  Qed.
+
+  Lemma root_lemma : exists r rest, F = r :: rest /\ so_full r = "root" /\ so_key r = None
+                                    /\ Forall (fun s => so_key s <> None) rest.
+  Proof.
+    destruct (final_facts shorten clean o p) as [_ [_ [Hd [_ [_ [_ [r [rest [HF [Hr Hrest]]]]]]]]]].
+    fold R in Hd, HF. fold F in Hd, HF. exists r, rest. split; [exact HF|].
+    rewrite HF in Hd. inversion Hd as [|d ds Hd1 _]; subst d ds. unfold wfd, dsc in Hd1. rewrite Hr in Hd1.
+    split; [tauto|]. split; [exact Hr|].
+    rewrite Forall_forall in *. intros s0 Hin. apply Hrest. now apply in_map.
+  Qed.
+End Statements.
